@@ -286,6 +286,7 @@ pub fn cmd_sched(m: &HashMap<String, String>) -> i32 {
     let cfg = gen_cfg(m, &focus);
     crate::ops::CLAIMS_ENABLED.store(focus == "wnaf", std::sync::atomic::Ordering::Relaxed);
     let selfcheck = m.contains_key("selfcheck");
+    let known: Vec<String> = m.get("known").map(|k| k.split(';').filter(|x| !x.is_empty()).map(|x| x.to_string()).collect()).unwrap_or_default();
     let t0 = Instant::now();
     let deadline = if secs > 0 { Some(t0 + Duration::from_secs(secs)) } else { None };
 
@@ -326,8 +327,12 @@ pub fn cmd_sched(m: &HashMap<String, String>) -> i32 {
             counters.add(&format!("selfcheck_{}_ops", name), r.ops_run as u64);
             dg.u64(r.digest);
             ops += r.ops_run as u64;
-            if r.violation.is_some() && violation.is_none() {
-                violation = Some((-1, plan, r));
+            if let Some(v) = &r.violation {
+                if known.iter().any(|k| *k == v.class()) {
+                    counters.inc(&format!("known_finding_hit|{}", v.class()));
+                } else if violation.is_none() {
+                    violation = Some((-1, plan, r));
+                }
             }
         }
     }
@@ -384,8 +389,12 @@ pub fn cmd_sched(m: &HashMap<String, String>) -> i32 {
             let lr = run_once(&mut w, &explicit(&plan, &r.decisions), true);
             samples.push(J::obj().set("run_index", J::Int(idx as i64)).set("plan", explicit(&plan, &r.decisions).to_json()).set("event_log", J::Arr(lr.log.iter().map(|l| J::s(l)).collect())));
         }
-        if r.violation.is_some() {
-            violation = Some((idx as i64, plan, r));
+        if let Some(v) = &r.violation {
+            if known.iter().any(|k| *k == v.class()) {
+                counters.inc(&format!("known_finding_hit|{}", v.class()));
+            } else {
+                violation = Some((idx as i64, plan, r));
+            }
         }
         idx += of;
     }
@@ -492,7 +501,7 @@ pub fn replay(path: &str, j: &J, quiet: bool) -> i32 {
         .get("violation")
         .map(|v| {
             let op = v.get("op").and_then(|x| x.as_str()).unwrap_or("");
-            format!("{}|{}", v.get("invariant").and_then(|x| x.as_str()).unwrap_or(""), op.split(' ').next().unwrap_or(""))
+            format!("{}|{}", v.get("invariant").and_then(|x| x.as_str()).unwrap_or(""), op.split(' ').next().unwrap_or("")).replace(' ', "_")
         })
         .unwrap_or_default();
     let mut w = World { shared: Shared::build(cfg.with_256), ref_shared: Shared::build(cfg.with_256), refs: Refs::new() };
